@@ -735,7 +735,7 @@ def run(ctx, res):
                  "Model/Await.lean; every registered @async_variant filter sync vs async over lists/generators/async generators; every "
                  "registered filter/test and the syntactic consumers applied to the result of every producer (DESIGN F17)"),
         "samples": pr.pop("samples"),
-        "programs": pr, "expressions": ex, "unit": {"evaluations": n_unit, "kinds": unit_kinds}, "pairs": ps, "consumer_probes": cp,
+        "programs": int(pr.get("programs", 0)), "program_stats": pr, "expressions": ex, "unit": {"evaluations": n_unit, "kinds": unit_kinds}, "pairs": ps, "consumer_probes": cp,
         "boost": boost,
     })
 
